@@ -554,6 +554,9 @@ func (c *SpecCtx) call(x *ast.CallExpr) SpecVal {
 		}
 		n := c.inState(c.old)
 		return n.tr(x.Args[0])
+	case "clocknow":
+		ft.keySort("$clock", "Int")
+		return SpecVal{T: ft.get(c.st, "$clock"), Typ: intType, Sort: "Int"}
 	case "atlock":
 		if c.ft.afterLock == nil {
 			c.fail("atlock(): no lock acquired before this point")
@@ -945,10 +948,8 @@ func (c *SpecCtx) quant(kind string, x *ast.CallExpr) SpecVal {
 		s := c.ft.d.sortOf(t)
 		n := c.with(map[string]SpecVal{id.Name: {T: bn, Typ: t, Sort: s}})
 		body := n.tr(x.Args[2])
-		ti := c.ft.typeInv(bn, t, c.st)
-		if _, isInt := t.Underlying().(*types.Basic); isInt {
-			ti = "true"
-		}
+		// quantifiers range over the whole sort (no allocation guard: it would make invariants non-inductive)
+		ti := "true"
 		if kind == "forall" {
 			return bv(forall([][2]string{{bn, s}}, implies(ti, body.T)))
 		}
